@@ -31,6 +31,9 @@ type letter struct {
 	Target  string
 	Chunked bool
 	Twin    int
+	// Closes: fasthttp closes the connection after this request (site letters, sites.go): it can only
+	// be the last request on its connection.
+	Closes bool
 
 	raw  []byte
 	comp map[string]int // byte length of each request component (for the clobber classification)
@@ -267,6 +270,7 @@ func init() {
 	}
 	nGeneral = len(alphabet)
 	addShapes()
+	addSites()
 	for _, l := range alphabet {
 		l.build()
 	}
